@@ -734,43 +734,86 @@ def extra_checks(seed):
     # two meshes in one history: energy identity and reaction balance after coming back (Set_Iter)
     try:
         from EasyFEA import Models, Simulations, SolverType
-        meshA, meshB = mesh_2d_fan(), mesh_2d_mixed()
-        simu = Simulations.Elastic(meshA, Models.Elastic.Isotropic(2, E=8.0, v=0.25, planeStress=True, thickness=2.0))
-        simu.solver = SolverType.scipy
+        for hname, meshB, fixedB in (("", mesh_2d_mixed(), [0, 3]), ("stretched-copy:", mesh_2d_fan(), [4, 5])):
+            meshA = mesh_2d_fan()
+            if hname:
+                cB = meshB.coord.copy()
+                cB[:, 0] *= 2.0            # same discretisation (Nn, Ne, connect), moved nodes
+                cB[:, 1] *= 0.75
+                meshB.coord = cB
+            simu = Simulations.Elastic(meshA, Models.Elastic.Isotropic(2, E=8.0, v=0.25, planeStress=True, thickness=2.0))
+            simu.solver = SolverType.scipy
 
-        def solve_on(mesh, fixed):
-            simu.Bc_Init()
-            simu.add_dirichlet(np.array(fixed), [0.0, 0.0], ["x", "y"])
-            simu.add_volumeLoad(mesh.nodes, [1.0, -2.0], ["x", "y"])
-            simu.Solve()
-            simu.Save_Iter()
-            return np.asarray(simu.Bc_vector_Neumann()).ravel().copy()
+            def solve_on(mesh, fixed):
+                simu.Bc_Init()
+                simu.add_dirichlet(np.array(fixed), [0.0, 0.0], ["x", "y"])
+                simu.add_volumeLoad(mesh.nodes, [1.0, -2.0], ["x", "y"])
+                simu.Solve()
+                simu.Save_Iter()
+                return np.asarray(simu.Bc_vector_Neumann()).ravel().copy()
 
-        def energy_and_balance(label, fixed, F):
-            K = simu.Get_K_C_M_F()[0]
-            u = simu.displacement
-            ok1, d1 = (False, "K is %s but u has %d entries" % (K.shape, u.size)) if K.shape[0] != u.size else close(simu.Result("Wdef"), 0.5 * u @ (K @ u))
-            rec("Elastic:history", "history:%s:Wdef=half-uKu" % label, ok1, d1)
-            try:
-                dofs = simu.Bc_dofs_nodes(np.array(fixed), ["x", "y"])
-                R = np.zeros(simu.mesh.Nn * 2)
-                R[dofs] = simu.Calc_Reaction(dofs)
-                R[dofs] -= F[dofs]                      # reaction proper = K u - F on the constrained dofs
-                tot = R.reshape(-1, 2).sum(axis=0) + F.reshape(-1, 2).sum(axis=0)
-                rec("Elastic:history", "history:%s:reaction-balance" % label, bool(np.all(np.abs(tot) <= 1e-9 * np.abs(F).sum())), "sum reactions + total load = %s (total load %s)" % (tot.tolist(), F.reshape(-1, 2).sum(axis=0).tolist()))
-            except Exception as ex:
-                rec("Elastic:history", "history:%s:reaction-balance" % label, False, "%s: %s" % (type(ex).__name__, ex))
-        FA = solve_on(meshA, [4, 5])
-        energy_and_balance("meshA", [4, 5], FA)
-        simu.mesh = meshB
-        FB = solve_on(meshB, [0, 3])
-        energy_and_balance("meshB", [0, 3], FB)
-        simu.Set_Iter(0)
-        energy_and_balance("back-on-meshA", [4, 5], FA)
-        simu.Set_Iter(1)
-        energy_and_balance("back-on-meshB", [0, 3], FB)
+            def energy_and_balance(label, fixed, F):
+                K = simu.Get_K_C_M_F()[0]
+                u = simu.displacement
+                ok1, d1 = (False, "K is %s but u has %d entries" % (K.shape, u.size)) if K.shape[0] != u.size else close_rel(simu.Result("Wdef"), 0.5 * u @ (K @ u), tol=1e-10)
+                rec("Elastic:history", "history:%s%s:Wdef=half-uKu" % (hname, label), ok1, d1)
+                try:
+                    dofs = simu.Bc_dofs_nodes(np.array(fixed), ["x", "y"])
+                    R = np.zeros(simu.mesh.Nn * 2)
+                    R[dofs] = simu.Calc_Reaction(dofs)
+                    R[dofs] -= F[dofs]                      # reaction proper = K u - F on the constrained dofs
+                    tot = R.reshape(-1, 2).sum(axis=0) + F.reshape(-1, 2).sum(axis=0)
+                    rec("Elastic:history", "history:%s%s:reaction-balance" % (hname, label), bool(np.all(np.abs(tot) <= 1e-9 * np.abs(F).sum())), "sum reactions + total load = %s (total load %s)" % (tot.tolist(), F.reshape(-1, 2).sum(axis=0).tolist()))
+                except Exception as ex:
+                    rec("Elastic:history", "history:%s%s:reaction-balance" % (hname, label), False, "%s: %s" % (type(ex).__name__, ex))
+            FA = solve_on(meshA, [4, 5])
+            energy_and_balance("meshA", [4, 5], FA)
+            simu.mesh = meshB
+            FB = solve_on(meshB, fixedB)
+            energy_and_balance("meshB", fixedB, FB)
+            simu.Set_Iter(0)
+            energy_and_balance("back-on-meshA", [4, 5], FA)
+            simu.Set_Iter(1)
+            energy_and_balance("back-on-meshB", fixedB, FB)
     except Exception:
         rec("Elastic:history", "history:scenario", False, traceback.format_exc()[-500:], kind="harness")
+    # Calc_Reaction under EVERY time scheme the simulation accepts (list read from AlgoType), non-zero
+    # u, v, a and Rayleigh damping on: reaction = K u (+ C v (+ M a)) on the requested dofs
+    try:
+        from EasyFEA import Models, Simulations
+        from EasyFEA.Simulations.Solvers import AlgoType
+        mesh = mesh_2d_mixed()
+        simu = Simulations.Elastic(mesh, Models.Elastic.Isotropic(2, E=8.0, v=0.25, planeStress=True, thickness=1.5))
+        simu.rho = 2.0
+        simu.Set_Rayleigh_Damping_Coefs(coefM=0.5, coefK=0.25)
+        n = mesh.Nn * 2
+        u, v, a = (rng.integers(-6, 7, n).astype(float) for _ in range(3))
+        dofs = np.array([0, 1, 6, 7, 9], dtype=int)
+        schemes = [("elliptic", None)] + [("parabolic", None)] + [(str(getattr(t, "name", t)), t) for t in AlgoType.Get_Hyperbolic_Types()]
+        for sname, algo in schemes:
+            if sname == "elliptic":
+                simu.Solver_Set_Elliptic_Algorithm()
+            elif sname == "parabolic":
+                simu.Solver_Set_Parabolic_Algorithm(dt=0.125)
+            else:
+                try:
+                    simu.Solver_Set_Hyperbolic_Algorithm(dt=0.125, algo=algo)
+                except AssertionError:
+                    simu.Solver_Set_Hyperbolic_Algorithm(dt=0.125, algo=algo, alpha=0.25)     # schemes with a restricted alpha range
+            simu._Set_solutions(simu.problemType, u.copy(), v.copy(), a.copy())
+            K, C, M, _ = simu.Get_K_C_M_F()
+            ref = K @ u
+            if sname != "elliptic":
+                ref = ref + C @ v
+            if sname not in ("elliptic", "parabolic"):
+                ref = ref + M @ a
+            try:
+                ok, d = close_rel(np.asarray(simu.Calc_Reaction(dofs)).ravel(), ref[dofs], tol=1e-11)
+            except Exception as ex:
+                ok, d = False, "%s: %s" % (type(ex).__name__, ex)
+            rec("Elastic:schemes", "reaction[%s]=Ku+Cv+Ma" % sname, ok, d)
+    except Exception:
+        rec("Elastic:schemes", "reaction-under-every-scheme", False, traceback.format_exc()[-500:], kind="harness")
     # von Mises of near-hydrostatic and exactly hydrostatic 3-D states (large mean, tiny deviator):
     # reference = difference form evaluated in exact rational arithmetic on the very same doubles
     try:
